@@ -149,11 +149,11 @@ def mapPartialPath (ftp : List (Bytes × List Bytes)) (path : Bytes) : Bytes :=
 def partialStep (nd : Bool) (ftp : List (Bytes × List Bytes)) (rel : Bytes) : Bytes :=
   if nd && isPartialExt rel then mapPartialPath ftp rel else rel
 
-/-- lines 336-359 with the lookup: the path part of the pipeline for one key -/
+/-- lines 336-363 with the lookup: the path part of the pipeline for one key -/
 def resolveKeyJ (cfg : Cfg) (fs : FS) (nd : Bool) (ftp : List (Bytes × List Bytes)) (key : Bytes) :
     Res (Option (Bytes × Bytes)) :=
   if cfg.mapping.isSome && (bsl key).isEmpty then .panic "to_lowercase_first"
-  else getAbsPath fs cfg.sourceDir (partialStep nd ftp (keyPath cfg key))
+  else finishPath (getAbsPath fs cfg.sourceDir (partialStep nd ftp (keyPath cfg key)))
 
 /-- the `filter_map` closure with the lookup -/
 def rewriteKeyJ (cfg : Cfg) (fs : FS) (nd : Bool) (ftp : List (Bytes × List Bytes))
